@@ -30,6 +30,87 @@ def DocPairs.toList : DocPairs → List (Doc × Doc)
   | .nil => []
   | .cons k v r => (k, v) :: r.toList
 
+/-! ### alias expansion (`Loader.__expand_aliases` on the composer's node graph)
+
+PyYAML's composer registers an anchor *before* it composes the node's children, so an alias inside the
+anchored node refers to the node under construction: a cycle.  `opened` lists the anchors of the nodes
+currently being expanded; an alias to one of them is rejected, an alias to a finished anchor is
+replaced by (a copy of) the expanded node.  Anchors are unique in a composed document and aliases refer
+to anchors seen earlier (the composer raises ComposerError otherwise), so a missing anchor is reported
+as `undefined`, which never happens for composer output. -/
+
+inductive ExpandErr where
+  | cycle (m : Mark)
+  | undefined
+  deriving DecidableEq, Repr
+
+abbrev Anchors := List (String × Node)
+
+def noteAnchor (a : Option String) (n : Node) (env : Anchors) : Anchors :=
+  match a with
+  | some name => (name, n) :: env
+  | none => env
+
+def openAnchor (a : Option String) (m : Mark) (opened : List (String × Mark)) : List (String × Mark) :=
+  match a with
+  | some name => (name, m) :: opened
+  | none => opened
+
+mutual
+def expandDoc (opened : List (String × Mark)) (env : Anchors) : Doc → Except ExpandErr (Node × Anchors)
+  | .scalar a t v m => .ok (.scalar t v m, noteAnchor a (.scalar t v m) env)
+  | .seq a t xs m =>
+    match expandDocs (openAnchor a m opened) env xs with
+    | .error e => .error e
+    | .ok (ys, env') => .ok (.seq t ys m, noteAnchor a (.seq t ys m) env')
+  | .map a t ps m =>
+    match expandPairs (openAnchor a m opened) env ps with
+    | .error e => .error e
+    | .ok (qs, env') => .ok (.map t qs m, noteAnchor a (.map t qs m) env')
+  | .alias name _ =>
+    match opened.lookup name with
+    | some am => .error (.cycle am)          -- the error cites the node that contains itself
+    | none =>
+    match env.lookup name with
+      | some n => .ok (n, env)
+      | none => .error .undefined
+def expandDocs (opened : List (String × Mark)) (env : Anchors) : Docs → Except ExpandErr (Nodes × Anchors)
+  | .nil => .ok (.nil, env)
+  | .cons x xs =>
+    match expandDoc opened env x with
+    | .error e => .error e
+    | .ok (y, env1) =>
+      match expandDocs opened env1 xs with
+      | .error e => .error e
+      | .ok (ys, env2) => .ok (.cons y ys, env2)
+def expandPairs (opened : List (String × Mark)) (env : Anchors) : DocPairs → Except ExpandErr (Pairs × Anchors)
+  | .nil => .ok (.nil, env)
+  | .cons k v r =>
+    match expandDoc opened env k with
+    | .error e => .error e
+    | .ok (k', env1) =>
+      match expandDoc opened env1 v with
+      | .error e => .error e
+      | .ok (v', env2) =>
+        match expandPairs opened env2 r with
+        | .error e => .error e
+        | .ok (r', env3) => .ok (.cons k' v' r', env3)
+end
+
+-- an alias-free, anchor-free document for a node tree
+mutual
+def Doc.ofNode : Node → Doc
+  | .scalar t v m => .scalar none t v m
+  | .seq t xs m => .seq none t (Docs.ofNodes xs) m
+  | .map t ps m => .map none t (DocPairs.ofPairs ps) m
+def Docs.ofNodes : Nodes → Docs
+  | .nil => .nil
+  | .cons x xs => .cons (Doc.ofNode x) (Docs.ofNodes xs)
+def DocPairs.ofPairs : Pairs → DocPairs
+  | .nil => .nil
+  | .cons k v r => .cons (Doc.ofNode k) (Doc.ofNode v) (DocPairs.ofPairs r)
+end
+
 /-- an empty stream is a null document -/
 def emptyDocument : Node := .scalar tNull "" ⟨0, 0⟩
 
@@ -53,5 +134,12 @@ def loadNode (env : Env) (tbl : List Entry) (fuel : Nat) (n : Node) (T : Ty) : L
     match construct env tbl fuel p.node with
     | .error (e, calls) => .error ⟨e, calls⟩
     | .ok c => .ok ⟨c.value, c.calls, p.trace, p.node⟩
+
+/-- load from the composer's output: expand aliases (rejecting cycles), then `loadNode` -/
+def loadDoc (env : Env) (tbl : List Entry) (fuel : Nat) (d : Doc) (T : Ty) : LoadRes :=
+  match expandDoc [] [] d with
+  | .error (.cycle m) => .error ⟨.recognition [⟨[m], []⟩], []⟩
+  | .error .undefined => .error ⟨.yaml "ComposerError", []⟩
+  | .ok (n, _) => loadNode env tbl fuel n T
 
 end YatimlModel
